@@ -606,3 +606,22 @@ package syntax
 //@   loop 1 invariant forall i, j :: 0 <= i && i < checkIndex && i < j && j < len(pipeline.Calls) ==> !has(depsMap[pipeline.Calls[i]], pipeline.Calls[j])
 //@   loop 2 invariant 0 <= iter && -1 <= maxIndex && maxIndex < iter
 //@   loop 2 invariant forall k :: maxIndex < k && k < iter ==> !has(deps, pipeline.Calls[checkIndex + 1 + k])
+
+// ---------------------------------------------------------------- C03 a call's disabling conditions are its own
+// resolveDisableExp extends the list of conditions inherited from the enclosing pipelines.
+// Sibling calls inherit the SAME slice, so the extension must never be written into the
+// inherited slice's backing array (not even into its spare capacity): one sibling's condition
+// would replace another's.
+//@ func syntax.resolveDisableExp property C03
+//@   ensures @inputuntouched forall j :: 0 <= j && j < cap(disable) ==> disable[j] == old(disable[j])
+//@   loop 1 invariant forall j :: 0 <= j && j < cap(disable) ==> disable[j] == old(disable[j])
+//@   loop 2 invariant forall j :: 0 <= j && j < cap(disable) ==> disable[j] == old(disable[j])
+//@   loop 3 invariant forall j :: 0 <= j && j < cap(disable) ==> disable[j] == old(disable[j])
+//@ func syntax.resolveDisableArray property C03
+//@   ensures @inputuntouched forall j :: 0 <= j && j < cap(disable) ==> disable[j] == old(disable[j])
+//@   loop 1 invariant forall j :: 0 <= j && j < cap(disable) ==> disable[j] == old(disable[j])
+//@ func syntax.resolveDisableMap property C03
+//@   ensures @inputuntouched forall j :: 0 <= j && j < cap(disable) ==> disable[j] == old(disable[j])
+//@   loop 1 invariant forall j :: 0 <= j && j < cap(disable) ==> disable[j] == old(disable[j])
+//@   loop 2 invariant forall j :: 0 <= j && j < cap(disable) ==> disable[j] == old(disable[j])
+//@   loop 3 invariant forall j :: 0 <= j && j < cap(disable) ==> disable[j] == old(disable[j])
